@@ -29,8 +29,16 @@ def plan(tier, seed):
         chunks, pops = 16, 1
     else:
         dates, chunks, pops = ds, 8, 1
-    return [dict(date=str(d), k=k, chunk=c, chunks=chunks, seed=seed, tier=tier)
-            for d in dates for k in range(pops) for c in range(chunks)]
+    items = [dict(date=str(d), k=k, chunk=c, chunks=chunks, seed=seed, tier=tier)
+             for d in dates for k in range(pops) for c in range(chunks)]
+    # historical dates: the part of the default targets that is computable there
+    hist = [datetime.date(2003, 7, 1), datetime.date(2009, 7, 1), datetime.date(2012, 7, 1)] if tier == "quick" else \
+        [datetime.date(y, m, 1) for y in range(1996, 2015) for m in (1, 7)]
+    items += [dict(date=str(d), k=0, chunk=c, chunks=4, seed=seed, tier=tier, historical=True) for d in hist for c in range(4)]
+    # shared mutable objects between parameter groups, at every change date since 1984
+    cd = [d for d in env.change_dates() if d.year >= 1984]
+    items += [dict(kind="alias", dates=[str(d) for d in cd[i:i + 25]], seed=seed) for i in range(0, len(cd), 25)]
+    return items
 
 
 def perturb(obj, mode, path=()):
@@ -108,7 +116,41 @@ def changed_nodes(S0, S1, nodes):
     return ch
 
 
+def _alias_item(item):
+    """No dict / array may be reachable from two different parameter groups (a reform of one group would
+    silently change the other)."""
+    from _gettsim.policy_environment import set_up_policy_environment
+
+    res = dict(kind="alias", violations=[], runs=0, reforms=[], kinds={}, reform_failed=[], no_effect=0, nodes_changed_total=0,
+               date="", pop="", environments=0, objects=0, intra_group_aliases=set())
+    for ds in item["dates"]:
+        params, _ = set_up_policy_environment(datetime.date.fromisoformat(ds))
+        res["environments"] += 1
+        seen = {}
+
+        def walk(o, g, path):
+            if isinstance(o, (dict, np.ndarray, list)):
+                res["objects"] += 1
+                if id(o) in seen and seen[id(o)][0] != g:
+                    res["violations"].append(dict(key=f"shared_object:{seen[id(o)][0]}|{g}",
+                                                  what=f"{ds}: params['{seen[id(o)][0]}']{seen[id(o)][1]} and params['{g}']{path} are the same "
+                                                       f"mutable object: editing one parameter group changes the other"))
+                elif id(o) in seen:
+                    res["intra_group_aliases"].add(f"{g}:{seen[id(o)][1]}={path}")
+                seen.setdefault(id(o), (g, path))
+                if isinstance(o, dict):
+                    for k, v in o.items():
+                        walk(v, g, f"{path}[{k!r}]")
+
+        for g, v in params.items():
+            walk(v, g, "")
+    res["intra_group_aliases"] = sorted(res["intra_group_aliases"])[:10]
+    return res
+
+
 def run_item(item):
+    if item.get("kind") == "alias":
+        return _alias_item(item)
     import networkx as nx
 
     from vf import env, popgen
@@ -120,7 +162,10 @@ def run_item(item):
     params, functions = env.environment(d)
     df = popgen.population(prng, d, n_hh=9, params=params)
     df = df.iloc[prng.permutation(len(df))].reset_index(drop=True)
-    S0, nodes, roots, dag, fn = env.trace(df, params, functions)
+    TARGETS = None
+    if item.get("historical"):
+        TARGETS = env.feasible_targets(functions, list(df.columns), data=df, params=params)
+    S0, nodes, roots, dag, fn = env.trace(df, params, functions, TARGETS)
     res = dict(date=item["date"], pop=popgen.digest(df), runs=0, violations=[], reforms=[],
                kinds={}, reform_failed=[], no_effect=0, nodes_changed_total=0)
 
@@ -148,7 +193,7 @@ def run_item(item):
         p_snap = copy.deepcopy(p2)
         f_snap = dict(f2)
         try:
-            S1, nodes1, _, _, _ = env.trace(df, p2, f2)
+            S1, nodes1, _, _, _ = env.trace(df, p2, f2, TARGETS)
         except Exception as e:  # noqa: BLE001
             res["reform_failed"].append(f"{kind}:{label}:{type(e).__name__}")
             return
@@ -192,6 +237,16 @@ def run_item(item):
             p2 = copy.deepcopy(params)
             p2[g] = set_leaf(params[g], lv[i], lambda x: x * 1.5 + 1)
             reform("leaf", f"{g}/{'/'.join(map(str, lv[i]))}", p2, functions, allowed)
+    # (b1) the way users write reforms: deep copy of the whole environment, then assign one leaf in place
+    for g in my_groups:
+        lv = list(leaves(params[g]))
+        for i in rng.choice(len(lv), min(len(lv), 3 if item["tier"] == "quick" else 8), replace=False) if lv else []:
+            p2 = copy.deepcopy(params)
+            o = p2[g]
+            for k in lv[i][:-1]:
+                o = o[k]
+            o[lv[i][-1]] = o[lv[i][-1]] * 1.5 + 1
+            reform("leaf_inplace", f"{g}/{'/'.join(map(str, lv[i]))}", p2, functions, allowed_from(users_of_group(g)))
     # (b2) rounding specifications: change base / direction / add the optional offset for ONE function
     for g in my_groups:
         specs = params[g].get("rounding", {}) if isinstance(params[g], dict) else {}
@@ -221,7 +276,10 @@ def run_item(item):
 
 def summarize(results, tier, seed):
     ok = [r for r in results if "_harness_error" not in r]
-    viol = [dict(key=v["key"], what=v["what"], witness=v, item=r["_item"]) for r in ok for v in r["violations"]]
+    viol = [dict(key=v["key"], what=v["what"], witness=v, item=r["_item"]) for r in ok if r.get("kind") != "alias" for v in r["violations"]]
+    alias = [r for r in ok if r.get("kind") == "alias"]
+    ok = [r for r in ok if r.get("kind") != "alias"]
+    viol += [dict(key=v["key"], what=v["what"], witness=v, item=r["_item"]) for r in alias for v in r["violations"]]
     cases = {(r["pop"], r["date"], *x) for r in ok for x in r["reforms"]}
     kinds = {}
     for r in ok:
@@ -243,6 +301,10 @@ def summarize(results, tier, seed):
         function_reforms_without_effect_on_own_column=sum(r["no_effect"] for r in ok),
         nodes_changed_total=sum(r["nodes_changed_total"] for r in ok),
         dates=sorted({r["date"] for r in ok}),
+        historical_dates=sorted({r["date"] for r in ok if r["_item"].get("historical")}),
+        environments_scanned_for_shared_objects=sum(r["environments"] for r in alias),
+        mutable_objects_scanned=sum(r["objects"] for r in alias),
+        aliases_within_one_group_observed=sorted({a for r in alias for a in r["intra_group_aliases"]})[:8],
         samples=[r["sample"] for r in ok[:2]],
     )
     return dict(coverage=cov, violations=viol, inconclusive=inconclusive,
